@@ -138,6 +138,17 @@ CLAIMED.update({
              technique='Coq proof (both byte orders as a parameter of every model; helper sets regenerated per #if branch); differential tie in two build configurations',
              ref='DESIGN.md section 4 C14'),
 })
+CLAIMED.update({
+ 'C15': dict(text='Theorem C15_no_wide_access: the inventory, regenerated from the clang AST of every library source on each run, of pointer casts that raise the alignment requirement of their pointee '
+                  '(byte pointer / byte-array header type to a 16/32/64-bit type) is empty, so every PDU access goes through byte lvalues, memcpy or memset; C15_bytewise_safe: such access traces are '
+                  'defined at every placement; C15_typed_unsafe: a single typed 2/4/8-byte access is undefined at some placement. The models of C01-C12 do not have the address as an input, so their '
+                  'theorems hold at every placement.',
+             note='The step from "no alignment-raising cast in the source" to "no access with an alignment requirement" is the C abstract machine argument, trusted together with the translator tools/gen_align.py. '
+                  'Tie/search: every operation family at PDU offsets 0..7 from a 16-byte boundary on gcc/clang builds at several optimisation levels (results must equal offset 0) and on a -fsanitize=alignment '
+                  'build (any report is a violation with file:line). "Every optimisation level" is empirical for gcc 12 / clang 14 on x86-64. Print Assumptions: closed under the global context.',
+             technique='Coq proof over a regenerated AST inventory + small abstract-machine theory of placement; placement/optimisation-level differential runs and alignment sanitizer',
+             ref='DESIGN.md section 4 C15'),
+})
 ALL = ['C%02d' % i for i in range(1, 21)]
 def main():
     checks = []
